@@ -5,6 +5,7 @@ import Driver.C10
 import Driver.C08
 import Driver.C18
 import Driver.C17
+import Driver.Net
 
 /-! Line-protocol driver: `driver <property> model|oracle < ops > out`.
     Stateless properties map each line independently; stateful ones thread a state. -/
@@ -35,4 +36,6 @@ def main (args : List String) : IO UInt32 := do
   | ["C08", mode] => loopState stdin stdout (Driver.C08.step (mode == "oracle")) default; return 0
   | ["C18", mode] => loopState stdin stdout (Driver.C18.step (mode == "oracle")) default; return 0
   | ["C17", mode] => loopState stdin stdout (Driver.C17.step (mode == "oracle")) default; return 0
+  | ["C09", mode] => loopState stdin stdout (Driver.Net.step (mode == "oracle")) default; return 0
+  | ["C11", mode] => loopState stdin stdout (Driver.Net.step (mode == "oracle")) default; return 0
   | _ => IO.eprintln "usage: driver <property> model|oracle"; return 2
